@@ -185,7 +185,7 @@ theorem Inv.frame {E : Task → Prop} {w w' : World} (h : Inv E w)
 
 /-! ## oneshots completed or abandoned by the context -/
 
-theorem sendSlot_eq (w : World) (s : Nat) (v : SlotVal) :
+theorem sendSlot_eqQ (w : World) (s : Nat) (v : SlotVal) :
     w.sendSlot s v =
       if w.slot s = some .empty then
         { w with slots := setAssoc s (.full v) w.slots,
@@ -240,7 +240,7 @@ theorem Inv.fillSlot {E : Task → Prop} {w : World} (h : Inv E w) (s : Nat) (v 
 
 theorem Inv.sendSlot {E : Task → Prop} {w : World} (h : Inv E w) (s : Nat) (v : SlotVal) :
     Inv E (w.sendSlot s v) := by
-  rw [sendSlot_eq]; split
+  rw [sendSlot_eqQ]; split
   · exact h.fillSlot s _
   · exact h
 
@@ -251,7 +251,7 @@ theorem Inv.dropSlotTx {E : Task → Prop} {w : World} (h : Inv E w) (s : Nat) :
 
 /-! ## subscription channels fed or abandoned by the context -/
 
-theorem deliver_eq (w : World) (c : Nat) (p : PublishRx) :
+theorem deliver_eqQ (w : World) (c : Nat) (p : PublishRx) :
     w.deliver c p =
       match w.chan c with
       | some ch => { w with chans := setAssoc c { ch with buf := ch.buf ++ [p], reg := false } w.chans,
@@ -289,7 +289,7 @@ theorem Inv.updChan {E : Task → Prop} {w : World} (h : Inv E w) (c : Nat) (ch 
 
 theorem Inv.deliver {E : Task → Prop} {w : World} (h : Inv E w) (c : Nat) (p : PublishRx) :
     Inv E (w.deliver c p) := by
-  rw [deliver_eq]; split
+  rw [deliver_eqQ]; split
   · rename_i ch hc; exact h.updChan c ch _ hc
   · exact h
 
